@@ -145,7 +145,11 @@ func (g *Generator) AdjustEnv(env []*nri.KeyValue) {
 	mod := map[string]*nri.KeyValue{}
 
 	for _, e := range env {
-		key, _ := nri.IsMarkedForRemoval(e.Key)
+		key, marked := nri.IsMarkedForRemoval(e.Key)
+		if _, ok := mod[key]; ok && marked {
+			// setting a variable wins over removing it, regardless of order
+			continue
+		}
 		mod[key] = e
 	}
 
